@@ -1,5 +1,6 @@
 """C10 — results are deterministic and independent of incidental ordering (metamorphic pairs of runs)."""
 import random
+import warnings
 
 import numpy as np
 
@@ -133,10 +134,47 @@ class TieWatch:
         return wrapped
 
 
-def run_one(d, order=None, cons_order=None, session_order=None, shift=0):
+class _Fork(Exception):
+    pass
+
+
+def run_one(d, order=None, cons_order=None, session_order=None, shift=0, fork_at=None):
     watch = TieWatch(unint=bool(d["scheduler"].get("unint")))
     sch = build.build_scheduler(d, sort_wrapper=watch)
     sim, evs = build.build_sim(d, scheduler=sch, order=order, cons_order=cons_order, session_order=session_order, shift=shift)
+    if fork_at is not None:
+        # the run is paused by a scheduler exception at its fork_at-th invocation, the WHOLE simulator is deep-copied, and the copy is
+        # run to the end (the original too): equal state must give equal outputs
+        import copy as _copy
+        st_ = {"n": 0, "fired": False}
+        orig_run = sch.run
+
+        def flaky():
+            if not st_["fired"] and st_["n"] == fork_at:
+                st_["fired"] = True
+                raise _Fork()
+            st_["n"] += 1
+            return orig_run()
+
+        sch.run = flaky
+        with warnings.catch_warnings():
+            warnings.simplefilter("ignore")
+            try:
+                sim.run()
+            except _Fork:
+                pass
+            except Exception:
+                pass
+            if st_["fired"]:
+                del sch.run  # back to the class's method, so that the copy's scheduler is an ordinary one bound to the copy
+                twin = _copy.deepcopy(sim)
+                rs = np.random.get_state()  # battery noise draws from numpy's global stream: both branches continue from the same state
+                try:
+                    sim.run()
+                except Exception:
+                    pass
+                np.random.set_state(rs)
+                sim = twin
     probe = SimProbe(sim, snapshots=False)
     probe.step_limit = simrun.last_event_ts(d, shift) + 4
     probe.attach()
@@ -256,11 +294,13 @@ def run_case(case, obs):
             rels.append(("shift", {"shift": rng.choice([1, 2, 3, 7])}, False))
         else:
             obs.ev("shift_skipped_recompute_phase")
+    if kind != "sorted" or not d["scheduler"].get("est"):
+        rels.append(("fork", {"fork_at": rng.choice([1, 2, 3, 5])}, False))
     tie = base["tie"]
     for name, kw, exact in rels:
         alt = run_one(d, **kw)
         tie = tie or alt["tie"]
-        if kind == "sorted" and tie and name not in ("rebuild", "shift"):
+        if kind == "sorted" and tie and name not in ("rebuild", "shift", "fork"):
             obs.ev("tie_dependent_not_judged")
             obs.boundary += 1
             continue
@@ -271,7 +311,7 @@ def run_case(case, obs):
         if alt["df_bad"]:
             obs.violate("as_df_accessor_mislabelled", f"{name} {kw}: " + alt["df_bad"], scenario=d, relation=name, params=kw)
         diff = compare(base, alt, exact=exact, shift=kw.get("shift", 0))
-        ident = all(list(v) == list(range(len(v))) for kk, v in kw.items() if kk != "shift")
+        ident = all(list(v) == list(range(len(v))) for kk, v in kw.items() if kk not in ("shift", "fork_at"))
         if (name == "shift") or (not ident and n >= 2 and (m >= 1 or len({s["voltage"] for s in net["stations"]}) > 1)):
             obs.nontrivial([obs.case_hash, name])
         if diff is not None:
